@@ -20,6 +20,7 @@ class Obligation:
     goal: object
     line: int = 0
     canary: bool = False
+    isolated: bool = False                     # discharged without the world axioms (its hypotheses carry the axioms it needs)
     status: str = '?'
     secs: float = 0.0
     model: object = None
@@ -41,6 +42,8 @@ class Contract:
     locals: dict = field(default_factory=dict) # declared types for locals that cannot be inferred
     ghosts: dict = field(default_factory=dict) # ghost results: name -> T  (existential witnesses of the postcondition)
     ghost_witness: object = None               # f(o, e) -> {name: Sym}: the witnesses, chosen from the exit environment
+    entry_lemmas: object = None                # f(o) -> [(name, [local axioms], Bool)]: consequences of the precondition, each proved *in isolation*
+                                               # (from the precondition and the listed axioms only), then available to every later obligation
 
 class NS:
     """attribute namespace over a dict of Syms (entry values `o`, loop env `e`)"""
@@ -220,7 +223,11 @@ class Engine:
             if isinstance(other.t, TVal) and other.t.name in self.w.none_consts:
                 return other.term == self.w.none_consts[other.t.name]
             return BoolVal(False)          # a collection / object is never None
-        if l.t != r.t: raise Unsupported(f'equality between {l.t} and {r.t}')
+        if l.t != r.t:
+            hook = getattr(self.w, 'equal_hook', None)
+            r2 = hook(l, r) if hook is not None else None
+            if r2 is None: raise Unsupported(f'equality between {l.t} and {r.t}')
+            return r2
         return l.term == r.term
 
     def len_compare(self, e, st):
@@ -324,7 +331,11 @@ class Engine:
     def ev_ListComp(self, e, st):
         coll, x, elt, flt = self.comp_parts(e, st)
         if elt.term.eq(x.term) and is_true(flt): return coll                      # identity map
-        if isinstance(coll.t, TSeq): raise Unsupported('map over a sequence')
+        if isinstance(coll.t, TSeq):
+            hook = getattr(self.w, 'seq_map', None)              # [f(x) for x in seq] as a spec function of the sequence, when the world knows f
+            r = hook(self, coll, x, elt) if (hook is not None and is_true(flt)) else None
+            if r is None: raise Unsupported('map over a sequence')
+            return r
         rt = TBag(elt.t); res = rt.fresh('lc'); y = Const(fresh_name('lcy'), elt.t.sort())
         st.pc.append(ForAll([y], And(Select(res.term, y) >= 0,
             (Select(res.term, y) > 0) == Exists([x.term], And(self.mem(coll, x), flt, y == elt.term)))))
@@ -355,8 +366,9 @@ class Engine:
             n = f.id
             if n in ('any', 'all') and e.args and isinstance(e.args[0], ast.GeneratorExp):
                 return self.quantified(e.args[0], st, n == 'all')
-            if n == 'isinstance' and len(e.args) == 2 and isinstance(e.args[1], ast.Name) and e.args[1].id in self.w.isinstance_preds:
-                return Sym(TBool, self.w.isinstance_preds[e.args[1].id](self.ev(e.args[0], st)))
+            if n == 'isinstance' and len(e.args) == 2:
+                cn = e.args[1].id if isinstance(e.args[1], ast.Name) else (e.args[1].attr if isinstance(e.args[1], ast.Attribute) and isinstance(e.args[1].value, ast.Name) and e.args[1].value.id not in st.env else None)
+                if cn in self.w.isinstance_preds: return Sym(TBool, self.w.isinstance_preds[cn](self.ev(e.args[0], st)))
             if n in self.w.identity_fns: return self.ev(e.args[0], st)
             if n in ('set', 'list', 'deque') and len(e.args) == 1:
                 a = self.ev(e.args[0], st)
@@ -738,6 +750,10 @@ class Engine:
             env['$yield'] = c.ret.empty()
         o = NS(old); self.entry = old
         if c.requires is not None: st.pc.append(unwrap(c.requires(o)))
+        if c.entry_lemmas is not None:
+            for (lname, local_axioms, formula) in c.entry_lemmas(o):
+                ob = Obligation(key, f'entry lemma {lname}', list(st.pc[:1]) + list(local_axioms), unwrap(formula), fn.lineno); ob.isolated = True
+                self.obls.append(ob); st.pc.append(unwrap(formula))
         for e_st, oc in self.ex_block(fn.body, st, []):
             if oc == 'normal': oc = ('return', NONE_SYM)
             if oc[0] == 'raise':
